@@ -1469,6 +1469,7 @@ class Interp:
             self._dict_store(arr, self.eval(target.slice, env), v, target)
             return
         if isinstance(arr, Tup) and arr.kind == "list":
+            self.note_table_write(arr, target, "item store")
             k = self.eval(target.slice, env)
             c = k.as_const() if isinstance(k, Expr) else None
             if c is not None and c.im == 0 and c.re.denominator == 1 and -len(arr.items) <= c.re < len(arr.items):
@@ -1584,7 +1585,13 @@ class Interp:
         self._rebind_in_containers(env, root, new)
         self.refresh_views(env, root, new)
 
+    def note_table_write(self, b, node, how):
+        mo = getattr(b, "module_origin", None)
+        if mo is not None:
+            self.event("module-table-write", node, "%s of the module-level table %s.%s: it is one object for the life of the process, so what this call leaves in it is seen by the next" % (how, mo[0], mo[1]))
+
     def _dict_store(self, arr, key, v, target):
+        self.note_table_write(arr, target, "item store")
         if self.loop_stack:
             # a dictionary filled inside a loop carries state from one iteration to the next
             self.event("loop-dict-store", target, (key, v, self.loop_stack[-1], id(arr)))
@@ -1727,6 +1734,8 @@ class Interp:
                 self.cur_mod = m
                 try:
                     st[key] = self.eval(node, {})
+                    if isinstance(st[key], Tup) and st[key].kind in ("list", "dict"):
+                        st[key].module_origin = (m.name, name)  # treated as a constant table: a write to it is reported
                 except AnalysisError:
                     st[key] = Opaque("%s.%s" % (m.name, name))
                 finally:
